@@ -305,8 +305,26 @@ impl ASN1Type {
         match self {
             ASN1Type::ChoiceSelectionType(c) => {
                 if let Some(ToplevelDefinition::Type(parent)) = tlds.get(&c.choice_name) {
-                    *self = parent.ty.clone();
-                    Ok(())
+                    // ITU-T X.680 clause 30: the selection type denotes the type of the selected alternative
+                    let selected = match &parent.ty {
+                        ASN1Type::Choice(choice) => choice
+                            .options
+                            .iter()
+                            .find(|o| o.name == c.selected_option)
+                            .map(|o| o.ty.clone()),
+                        _ => None,
+                    };
+                    if let Some(ty) = selected {
+                        *self = ty;
+                        Ok(())
+                    } else {
+                        Err(grammar_error!(
+                            LinkerError,
+                            "Could not find alternative {} in Choice {} of selection type.",
+                            c.selected_option,
+                            c.choice_name
+                        ))
+                    }
                 } else {
                     Err(grammar_error!(
                         LinkerError,
